@@ -150,7 +150,37 @@ def run(ctx, ck) -> None:
     chain_a = {('chain', ('le', 'lt'), ('const', '0'), La, F), ('and', ('cmp', 'le', ('const', '0'), La), ('cmp', 'lt', La, F))}
     chain_b = {('chain', ('lt', 'lt'), La, F, ('const', '0')), ('and', ('cmp', 'lt', La, F), ('cmp', 'lt', F, ('const', '0')))}
     same_sign = any(f[0] == 'truth' and f[2] is True and any(contains(f[1], c) for c in chain_a) and any(contains(f[1], c) for c in chain_b) for fs, _, _ in rps for f in fs)
-    ck.expect('A2', same_sign, init, 'first axis after the last one (both non-negative or both negative) is refused', 'a first axis lying after the last one (same sign) is no longer refused at construction', instance='ravel same-sign order')
+    # decided semantically: the disjunction of the refusal conditions that only compare first, last and 0 must hold exactly
+    # when both axes have the same sign and last < first (all order types of (first, last, 0) are enumerated)
+    from ..terms import NotEvaluable, eval_term
+
+    def refusal(fv: int, lv: int):
+        hit = False
+        for p in function_paths(init):
+            if p.exit != 'raise' or exception_name(p.node) != 'ValueError':
+                continue
+            e = path_env(p)
+            vals = []
+            try:
+                for ex, pol in p.conds():
+                    vals.append(bool(eval_term(term(ex, e), {F: fv, La: lv})) == pol)
+            except NotEvaluable:
+                continue  # a refusal that looks at the leaves (the mixed-sign case)
+            if vals and all(vals):
+                hit = True
+        return hit
+
+    grid = [(a, b) for a in range(-3, 4) for b in range(-3, 4)]
+    wrong = [(a, b) for a, b in grid if refusal(a, b) != (((a < 0) == (b < 0)) and b < a)]
+    if wrong:
+        a, b = wrong[0]
+        same_sign = False
+        why_ss = f'first_axis={a}, last_axis={b} is {"refused" if refusal(a, b) else "accepted"}'
+    else:
+        same_sign = True
+        why_ss = ''
+    ck.expect('A2', same_sign, init, 'first axis after the last one (both non-negative or both negative) is refused, and nothing else, by the leaf-independent guards (all 49 order types of first, last, 0)',
+              f'the leaf-independent guards of RavelOperator do not refuse exactly "same sign and last < first": {why_ss}', instance='ravel same-sign order')
     leaves_t = ('call', ('attr', ('attr', ('var', 'jax'), 'tree'), 'leaves'), (('var', 'in_structure'),), ())
     per_leaf = False
     for fs, env, p in rps:
